@@ -57,6 +57,10 @@ H_TofuGrow    == << <<Tofu1, G12>> >>
 H_TofuRefresh == << <<Tofu1, Ref1>> >>
 H_TofuForkGrow== << <<Tofu1, G12F, G12, G23>> >>
 H_TofuBadGrow == << <<Tofu1, BadPf, Stale, G12>> >>
+Tofu0   == U("l1", 0, 0, 0, E)
+Ref0    == U("l1", 0, 0, 0, E)
+H_ZeroRefresh == << <<Tofu0, Ref0, Ref0>> >>
+H_TofuReadGrow== << <<Tofu1, R("l1"), G12, R("l1")>> >>
 H_Grow        == << <<G12>> >>
 H_GrowGrow    == << <<G12, G23>> >>
 ====
